@@ -17,10 +17,12 @@ static void snap (SNAP *s) { s->fds = count_fds () ; s->tmp = count_dir (tmpd) ;
 
 typedef void (*SCEN) (void *arg) ;
 /* run a scenario with accounting; 'own_files' = files the scenario legitimately leaves in the scratch dir */
+static int account_fd0 = 0 ;	/* 1: descriptor 0 is closed before every attempt */
 static void account (const char *key, SCEN fn, void *arg, int own_files)
 {	SNAP a, b ; int attempt, leaked = 0 ; char what [200] = "" ;
 	for (attempt = 0 ; attempt < 2 ; attempt++)
-	{	snap (&a) ; fn (arg) ; snap (&b) ;
+	{	if (account_fd0 && fcntl (0, F_GETFD) != -1) close (0) ;
+		snap (&a) ; fn (arg) ; snap (&b) ;
 		if (b.heap <= a.heap && b.fds == a.fds && b.tmp == a.tmp && b.scr <= a.scr + own_files) { leaked = 0 ; break ; }
 		leaked = 1 ;
 		snprintf (what, sizeof (what), "heap %zu -> %zu bytes (%+ld), descriptors %d -> %d, temp-dir entries %d -> %d, scratch entries %d -> %d", a.heap, b.heap, (long) b.heap - (long) a.heap, a.fds, b.fds, a.tmp, b.tmp, a.scr, b.scr) ;
@@ -32,6 +34,18 @@ static void account (const char *key, SCEN fn, void *arg, int own_files)
 		vh_viol (key, "%s%s%s (repeatable)", what, b.heap > a.heap ? " [heap]" : "", b.fds != a.fds ? " [fd]" : "") ;
 		if (__lsan_do_recoverable_leak_check) __lsan_do_recoverable_leak_check () ;
 		}
+}
+
+/* run an accounted scenario in a process whose descriptor 0 is free (a daemon that closed stdin): the library's own open() then returns 0 */
+static void account_fd0_free (const char *key, SCEN fn, void *arg, int own_files)
+{	int saved = dup (0) ;
+	if (saved < 0) { account (key, fn, arg, own_files) ; return ; }
+	close (0) ; account_fd0 = 1 ;
+	account (key, fn, arg, own_files) ;
+	account_fd0 = 0 ;
+	vh_stat ("scenarios_with_descriptor_0_free", 1) ;
+	if (fcntl (0, F_GETFD) != -1) close (0) ;		/* a leaked descriptor 0 (already reported by account) */
+	dup2 (saved, 0) ; close (saved) ;
 }
 
 /* ---------------------------------------------------------------- scenario: valid histories */
@@ -156,7 +170,7 @@ int main (int argc, char **argv)
 			snprintf (key, sizeof (key), "C16|leak|valid-history|%s|%s%s%s", vh_fname (format), v.mode == SFM_WRITE ? "write" : v.mode == SFM_READ ? "read" : "rdwr", v.nframes ? "" : "|no-io", v.meta == 2 ? "|all-metadata" : "") ;
 			vh_distinct (vh_fnv (0, &v, sizeof (int) * 7)) ; vh_statf (1, "fmt:%s", vh_fname (format)) ;
 			if (k == 3) vh_sample ("%s ch=%d: valid %s history via %s, metadata level %d, %d frames, extra calls %d; heap/fd/tmp accounted around it", vh_fname (format), c, "write/read/rdwr", "vio|path", v.meta, v.nframes, v.extra) ;
-			account (key, scen_valid, &v, 0) ;
+			if (v.route == 1 && (k % 4) == 1) account_fd0_free (key, scen_valid, &v, 0) ; else account (key, scen_valid, &v, 0) ;		/* some path-route histories run with descriptor 0 free */
 			}
 		/* B. rejected inputs: truncation at every header byte (step 1 up to 120, then coarser), vio and path */
 		if (maj != SF_FORMAT_SD2 && maj != SF_FORMAT_RAW)
@@ -168,7 +182,7 @@ int main (int argc, char **argv)
 				if (!vh_case ("%s ch=%d truncated at %ld of %ld (%s)", vh_fname (format), c, cut, (long) rich.len, in.route ? "path" : "vio")) continue ;
 				snprintf (key, sizeof (key), "C16|leak|truncated-input|%s|%s", vh_fname (format), in.mode == SFM_RDWR ? "rdwr" : "read") ;
 				vh_distinct (vh_fnv (0, &format, 4) ^ ((uint64_t) cut << 32) ^ ((uint64_t) c << 60) ^ 99) ;
-				account (key, scen_input, &in, 0) ;
+				if (in.route && cut % 10 == 0) account_fd0_free (key, scen_input, &in, 0) ; else account (key, scen_input, &in, 0) ;
 				}
 			/* C. mutated inputs: the structure-aware mutators shared with C03 (field values, chunk sizes, duplicated/deleted/appended chunks ...),
 			**    opened for read and for read/write, through virtual I/O and by path */
